@@ -1307,6 +1307,23 @@ def extract_fn(repo, spec, features):
         #   E: for I in ( 0 .. <EXPR> ) . rev ( )            (descending index range; EXPR is evaluated once)
         #      -> let mut I = <EXPR>; while I > 0 { I -= 1; B }
         mE = re.fullmatch(r'for (\w+) in \( 0 \. \. (.+) \) \. rev \( \)', txt)
+        #   F: for ( X , Y ) in PATH . iter ( ) . zip ( PATH2 )       (no enumerate; PATH2 a Vec given by value or a &Vec)
+        #      -> let mut verif_k_N = 0; while verif_k_N < PATH.len() && verif_k_N < PATH2.len()
+        #         { let X = &PATH[verif_k_N]; let Y = &PATH2[verif_k_N]; verif_k_N += 1; B }
+        #      Y becomes a REFERENCE to the element of PATH2 (zip over a Vec by value yields the elements themselves): rustc
+        #      rejects the unit if B moves out of Y, so this is only accepted for bodies that read Y's fields
+        mF = re.fullmatch(r'for \( (\w+) , (\w+) \) in ' + PATH + r' \. iter \( \) \. zip \( (?:& )?' + PATH + r' \)', txt)
+        if mF and not (mA or mB or mC or mD or mD2 or mE):
+            xvar, yvar = mF.group(1), mF.group(2)
+            expr, expr2 = mF.group(3).replace(' ', ''), mF.group(4).replace(' ', '')
+            ivar = f'verif_k_{n_}'
+            head = f'let mut {ivar} = 0; while {ivar} < {expr}.len() && {ivar} < {expr2}.len() '
+            bind = f' let {xvar} = &{expr}[{ivar}]; let {yvar} = &{expr2}[{ivar}]; {ivar} += 1;'
+            edits.add(T[li].start, T[b].start, head, 'rewrite', 'R2 header')
+            edits.add(T[b].end, T[b].end, bind, 'rewrite', 'R2 bind')
+            log.append({'step': 'R2', 'line': sf.line_of(T[li].start), 'before': txt.replace(' ', ''),
+                        'after': head + '{' + bind + ' .. }'})
+            continue
         if mE and not (mA or mB or mC or mD):
             ivar = mE.group(1)
             k_in = li + 1
